@@ -1492,7 +1492,7 @@ FormatterToXML::writeNormalizedChars(
             }
         }
         else if(isCData == true &&
-                i < end - 2 &&
+                i + 2 < end &&
                 XalanUnicode::charRightSquareBracket == c &&
                 XalanUnicode::charRightSquareBracket == ch[i + 1] &&
                 XalanUnicode::charGreaterThanSign == ch[ i + 2])
